@@ -1057,6 +1057,8 @@ class Analysis:
             for q in self.src.field_funcs:
                 self.want(q)
             self._fixpoint(results)
+        # discovery order depends on set iteration (hash seed): emit in sorted order so that Gen/WriteSet.lean is reproducible (AUDIT2 §6 item 4)
+        self.work = sorted(self.work)
         self.res.functions = list(self.work)
         self.res.argmode = sorted(self.argmode)
         self.res.consumers = sorted(self.consumer)
